@@ -576,6 +576,95 @@ fn stress_shared(pr: &PropRun) -> crate::engine::runner::LaneReport {
     rep
 }
 
+/// Free-running stress: snapshots taken while other threads make first-time registrations of unrelated keys. Every
+/// snapshot must list every anchor metric (registered before, never touched again), each once and in registration order,
+/// with its value.
+fn stress_snapshot_vs_registration(pr: &PropRun) -> crate::engine::runner::LaneReport {
+    use crate::engine::runner::{LaneReport, Violation};
+    use std::sync::atomic::{AtomicBool, AtomicUsize, Ordering};
+    static SMETA: Metadata<'static> = Metadata::new("c19reg", Level::INFO, None);
+    let start = std::time::Instant::now();
+    let mut rep = LaneReport::named("stress-snapshot-during-registrations");
+    let epochs = pr.cfg.cases(40, 1500) as usize;
+    let anchors = 96usize;
+    let mut snapshots = 0u64;
+    let mut bad: Option<(String, String)> = None;
+    'epochs: for epoch in 0..epochs {
+        let rec = DebuggingRecorder::new();
+        let snap = rec.snapshotter();
+        for i in 0..anchors {
+            let key = Key::from_parts(format!("anchor{}", i), vec![metrics::Label::new("e", epoch.to_string())]);
+            match i % 3 {
+                0 => rec.register_counter(&key, &SMETA).increment(i as u64 + 1),
+                1 => rec.register_gauge(&key, &SMETA).set(i as f64),
+                _ => rec.register_histogram(&key, &SMETA).record(1.0),
+            }
+        }
+        let _ = snap.snapshot(); // drains the anchors' histograms once
+        let stop = AtomicBool::new(false);
+        let made = AtomicUsize::new(0);
+        std::thread::scope(|s| {
+            for t in 0..3usize {
+                let (rec, stop, made) = (&rec, &stop, &made);
+                s.spawn(move || {
+                    let mut n = 0usize;
+                    while !stop.load(Ordering::Acquire) && n < 4000 {
+                        let key = Key::from_name(format!("fresh_{}_{}", t, n));
+                        match (t + n) % 3 {
+                            0 => rec.register_counter(&key, &SMETA).increment(1),
+                            1 => rec.register_gauge(&key, &SMETA).set(1.0),
+                            _ => rec.register_histogram(&key, &SMETA).record(1.0),
+                        }
+                        n += 1;
+                        made.fetch_add(1, Ordering::Relaxed);
+                    }
+                });
+            }
+            for _ in 0..12 {
+                let v = snap.snapshot().into_vec();
+                snapshots += 1;
+                let got: Vec<String> = v.iter().filter(|(k, ..)| k.key().name().starts_with("anchor")).map(|(k, ..)| k.key().name().to_string()).collect();
+                let want: Vec<String> = (0..anchors).map(|i| format!("anchor{}", i)).collect();
+                if got != want {
+                    let missing: Vec<&String> = want.iter().filter(|w| !got.contains(w)).take(6).collect();
+                    bad = Some(("snapshot-entry-count".into(), format!("a snapshot taken while other threads registered new metrics lists {} of the {} metrics registered earlier (missing e.g. {:?}; order kept: {})", got.len(), anchors, missing, got.windows(2).all(|w| want.iter().position(|x| x == &w[0]) < want.iter().position(|x| x == &w[1])))));
+                    break;
+                }
+                for (k, _, _, val) in v.iter().filter(|(k, ..)| k.key().name().starts_with("anchor")) {
+                    let i: usize = k.key().name()[6..].parse().unwrap_or(0);
+                    let ok = match val {
+                        DebugValue::Counter(c) => *c == i as u64 + 1,
+                        DebugValue::Gauge(g) => g.0 == i as f64,
+                        DebugValue::Histogram(h) => h.is_empty(),
+                    };
+                    if !ok {
+                        bad = Some(("counter-value-wrong".into(), format!("anchor {} shows {:?} in a snapshot taken during registrations", i, val)));
+                        break;
+                    }
+                }
+                if bad.is_some() {
+                    break;
+                }
+            }
+            stop.store(true, Ordering::Release);
+        });
+        if bad.is_some() {
+            break 'epochs;
+        }
+    }
+    let mut ctx = Ctx::default();
+    ctx.fingerprint = Some(1);
+    ctx.nontrivial("snapshot-overlaps-first-time-registrations");
+    ctx.desc = Some(format!("{} epochs x 12 snapshots of a recorder holding {} anchor metrics while 3 free-running threads register fresh counters, gauges and histograms", epochs, anchors));
+    rep.account(ctx);
+    rep.evaluations = snapshots;
+    if let Some((sig, msg)) = bad {
+        rep.violations.push(Violation { lane: "stress-snapshot-during-registrations".into(), sig, msg, bytes: vec![], sched: vec![], decoded: "free-running threads (not deterministically replayable)".into() });
+    }
+    rep.wall_s = start.elapsed().as_secs_f64();
+    rep
+}
+
 pub fn run(cfg: &RunCfg, replay: Option<&str>) -> i32 {
     let mut pr = PropRun::new("C19", cfg, RULE);
     pr.register("direct-histories", &case_direct);
@@ -596,6 +685,8 @@ pub fn run(cfg: &RunCfg, replay: Option<&str>) -> i32 {
     let r = run_lane(&c, "C19", &Lane { name: "schedules", cases: c.cases(300_000, 8_000_000), max_len: 24, sched_len: 96, workers: 0, f: &case_sched });
     pr.push(r);
     let r = stress_shared(&pr);
+    pr.push(r);
+    let r = stress_snapshot_vs_registration(&pr);
     pr.push(r);
     pr.finish()
 }
